@@ -1,10 +1,407 @@
-// Package c05 holds the runtime monitors for property C05 (see DESIGN.md section 4).
+// Package c05 holds the runtime monitor for property C05: lexical scoping,
+// functions, containers and objects (see DESIGN.md section 4).
+//
+// Generated programs (gen.go) are interpreted by a store-passing reference
+// model (ref.go) and by the real interpreter of /repo (real.go); marker traces,
+// probe values and global scope values are compared.
 package c05
 
-import "verif/harness/core"
+import (
+	"fmt"
+	"os"
+	"sort"
+	"strings"
+
+	"verif/harness/core"
+)
 
 func init() { core.Register("C05", Run) }
 
+// diff describes the first difference between two observations.
+type diff struct {
+	cat      string // error | trace | probe | global
+	where    string
+	expected string
+	observed string
+}
+
+func compare(want, got obs, p *Program, probeSrc []string) *diff {
+	if got.Err != "" {
+		return &diff{"error", "program", "no error", got.Err}
+	}
+	n := len(want.Trace)
+	if len(got.Trace) < n {
+		n = len(got.Trace)
+	}
+	for i := 0; i < n; i++ {
+		if want.Trace[i] != got.Trace[i] {
+			return &diff{"trace", fmt.Sprintf("marker call %d", i), want.Trace[i], got.Trace[i]}
+		}
+	}
+	if len(want.Trace) != len(got.Trace) {
+		d := &diff{"trace", fmt.Sprintf("marker call %d", n), "<end of trace>", "<end of trace>"}
+		if len(want.Trace) > n {
+			d.expected = want.Trace[n]
+		} else {
+			d.observed = got.Trace[n]
+		}
+		return d
+	}
+	for i := range want.Probes {
+		if want.Probes[i] == undetermined {
+			continue
+		}
+		if i >= len(got.Probes) || want.Probes[i] != got.Probes[i] {
+			o := "<missing>"
+			if i < len(got.Probes) {
+				o = got.Probes[i]
+			}
+			return &diff{"probe", probeSrc[i], want.Probes[i], o}
+		}
+	}
+	for i := range want.Globals {
+		if want.Globals[i] == undetermined {
+			continue
+		}
+		if i >= len(got.Globals) || want.Globals[i] != got.Globals[i] {
+			o := "<missing>"
+			if i < len(got.Globals) {
+				o = got.Globals[i]
+			}
+			return &diff{"global", "global " + p.Names[i], want.Globals[i], o}
+		}
+	}
+	return nil
+}
+
+func sameObs(a, b obs) bool {
+	eq := func(x, y []string) bool {
+		if len(x) != len(y) {
+			return false
+		}
+		for i := range x {
+			if x[i] != y[i] {
+				return false
+			}
+		}
+		return true
+	}
+	return eq(a.Trace, b.Trace) && eq(a.Probes, b.Probes) && eq(a.Globals, b.Globals)
+}
+
+// verdict of one program
+type verdict struct {
+	dropped  string // non-empty: the statement does not determine the program (reason)
+	keys     []string
+	d        *diff
+	src      string
+	feat     map[string]int
+	traceLen int
+	realErr  string
+	partial  bool // deviation keys assigned on a matching trace prefix only
+}
+
+// devMasks orders the subsets of allDevs by size.
+func devMasks() []int {
+	var res []int
+	for n := 1; n <= len(allDevs); n++ {
+		for mask := 1; mask < 1<<len(allDevs); mask++ {
+			c := 0
+			for i := range allDevs {
+				if mask&(1<<i) != 0 {
+					c++
+				}
+			}
+			if c == n {
+				res = append(res, mask)
+			}
+		}
+	}
+	return res
+}
+
+func commonPrefixAgrees(a, b []string) bool {
+	n := len(a)
+	if len(b) < n {
+		n = len(b)
+	}
+	return tracePrefix(a[:n], b)
+}
+
+func tracePrefix(pre, full []string) bool {
+	if len(pre) > len(full) {
+		return false
+	}
+	for i := range pre {
+		if pre[i] != full[i] {
+			return false
+		}
+	}
+	return true
+}
+
+func dropClass(why string) string {
+	for _, p := range [][2]string{
+		{"add/del", "used-after-add-del"}, {"handed to del", "used-after-add-del"}, {"missing map key", "missing-key"},
+		{"out of range", "index-out-of-range"}, {"let", "let-rhs-touches-name"}, {"fuel", "fuel"}, {"depth", "depth"},
+		{"number key of a map", "write-path-through-number-key"}, {"without return", "function-without-return"},
+		{"two super templates", "ambiguous-inheritance"}, {"own constructor", "missing-super-constructor"},
+		{"function statement", "funcdecl-name-of-enclosing-scope"}, {"loop variable", "loop-variable-name"},
+		{"non-container", "non-container"}, {"not a number", "non-number"}, {"non-function", "non-function"},
+		{"left side refers", "rhs-changes-target"}, {"block scope", "block-scope-reuse"}, {"range", "degenerate-range"},
+	} {
+		if strings.Contains(why, p[0]) {
+			return p[1]
+		}
+	}
+	return "other"
+}
+
+func probeSources(p *Program) []string {
+	res := make([]string, len(p.Probes))
+	for i, e := range p.Probes {
+		res[i] = ExprSource(e)
+	}
+	return res
+}
+
+// judge runs the reference (twice: fresh block frames and re-used block frames
+// must agree, otherwise the program depends on something the statement leaves
+// open) and the real interpreter.
+func judge(p *Program) verdict {
+	var v verdict
+	fresh := runRef(p, false, nil)
+	if fresh.unspec != "" {
+		v.dropped = fresh.unspec
+		return v
+	}
+	reuse := runRef(p, true, nil)
+	if reuse.unspec != "" || !sameObs(fresh.obs, reuse.obs) {
+		v.dropped = "outcome depends on whether a re-entered block scope is fresh"
+		return v
+	}
+	v.feat = fresh.feat
+	v.traceLen = len(fresh.obs.Trace)
+	v.src = Source(p.Body)
+	ps := probeSources(p)
+	real, pkey := runReal(v.src, ps, p.Names, len(fresh.obs.Trace)+20)
+	if strings.Contains(real.Err, markerBudgetMsg) {
+		// a known deviation can legitimately lengthen a run (a loop over a list that
+		// should have been replaced); give it room before calling it run-away
+		real, pkey = runReal(v.src, ps, p.Names, 4*len(fresh.obs.Trace)+200)
+	}
+	v.realErr = real.Err
+	d := compare(fresh.obs, real, p, ps)
+	if d == nil {
+		return v
+	}
+	v.d = d
+	// known deviations: which subset of switches reproduces the real outcome?
+	// (a) a subset whose run equals the real observation exactly; else (b) a
+	// subset whose run agrees with the real trace as far as the model could follow
+	// it before the deviation led it into undetermined territory.
+	var partial []string
+	for _, mask := range devMasks() {
+		devs := map[string]bool{}
+		for i, s := range allDevs {
+			if mask&(1<<i) != 0 {
+				devs[s] = true
+			}
+		}
+		for _, reuseMode := range []bool{true, false} {
+			rr := runRef(p, reuseMode, devs)
+			var fired []string
+			for _, s := range allDevs {
+				if devs[s] && rr.fired[s] {
+					fired = append(fired, "dev:"+s)
+				}
+			}
+			if len(fired) == 0 {
+				continue
+			}
+			if rr.unspec == "" {
+				if compare(rr.obs, real, p, ps) == nil {
+					v.keys = fired
+					return v
+				}
+				continue
+			}
+			if partial == nil && real.Err == "" && tracePrefix(rr.obs.Trace, real.Trace) {
+				partial = fired
+			}
+			if partial == nil && strings.Contains(real.Err, markerBudgetMsg) && commonPrefixAgrees(rr.obs.Trace, real.Trace) {
+				// the deviation sent both the model and the interpreter into a run
+				// that only the budgets ended
+				partial = fired
+			}
+		}
+	}
+	if partial != nil {
+		v.keys = partial
+		v.partial = true
+		return v
+	}
+	if pkey != "" {
+		v.keys = []string{pkey}
+	} else {
+		v.keys = []string{"diff:" + d.cat}
+	}
+	return v
+}
+
+func hasKey(v verdict, k string) bool {
+	for _, x := range v.keys {
+		if x == k {
+			return true
+		}
+	}
+	return false
+}
+
+var shrunkPerKey = map[string]int{}
+
+func report(c *core.Ctx, stream string, idx int, p *Program, v verdict) {
+	switch {
+	case v.dropped != "":
+		c.Event("case.dropped", 1)
+		c.Event("dropped."+dropClass(v.dropped), 1)
+		if dropClass(v.dropped) == "other" {
+			c.Sample("dropped-other", map[string]interface{}{"why": v.dropped, "stream": stream, "idx": idx})
+		}
+		return
+	case len(v.keys) == 0:
+		c.Event("case.held", 1)
+	default:
+		c.Event("case.violating", 1)
+	}
+	kinds := 0
+	for _, k := range sortedFeat(v.feat) {
+		c.Event("feat."+k, int64(v.feat[k]))
+		if interesting(k) {
+			kinds++
+		}
+	}
+	c.Event("marker-calls", int64(v.traceLen))
+	if kinds >= 2 && v.traceLen >= 2 {
+		c.NontrivialKey(v.src)
+	}
+	if idx%997 == 3 {
+		c.Sample(stream, map[string]interface{}{"idx": idx, "source": v.src, "probes": probeSources(p), "marker_calls": v.traceLen})
+	}
+	if len(v.keys) == 0 {
+		return
+	}
+	// shrink along the generator's structure, one minimal witness per key
+	for _, key := range v.keys {
+		mp, mv := p, v
+		if shrunkPerKey[key] < 3 {
+			// shrinking costs a few hundred evaluations: only the first cases of a key
+			shrunkPerKey[key]++
+			mp, mv = shrink(cloneProgram(p), v, key)
+		}
+		detail := map[string]interface{}{
+			"minimal_source": mv.src, "where": mv.d.where, "expected": mv.d.expected, "observed": mv.d.observed,
+			"probes": probeSources(mp), "original_source": clip(v.src, 3000), "matched_on_trace_prefix_only": v.partial,
+		}
+		c.Violation(key, fmt.Sprintf("%s differs between the reference model and the interpreter: expected %s, observed %s",
+			mv.d.where, clip(mv.d.expected, 200), clip(mv.d.observed, 200)), stream, idx, detail)
+	}
+}
+
+func clip(s string, n int) string {
+	if len(s) > n {
+		return s[:n] + "..."
+	}
+	return s
+}
+
+func sortedFeat(m map[string]int) []string {
+	var ks []string
+	for k := range m {
+		ks = append(ks, k)
+	}
+	sort.Strings(ks)
+	return ks
+}
+
+// interesting features are the ones the property is about (as opposed to mere
+// plumbing like "an if block was entered").
+func interesting(k string) bool {
+	for _, p := range []string{"read.captured", "read.global-from-function", "read.enclosing-block", "read.undefined",
+		"assign.", "define.inner", "let.shadows", "call.fewer", "call.surplus", "call.default", "call.closure", "call.with-this",
+		"call.via-path", "path.write", "path.read.depth2", "path.read.depth3", "path.read.mixed", "write.", "builtin.", "new.", "multi-assign"} {
+		if strings.HasPrefix(k, p) {
+			return true
+		}
+	}
+	return false
+}
+
+const ruleText = "programs are generated type-directed over a bounded name pool (8 names a..h: 2 scalar, 2 container, 2 function, 2 object names; every name has one type in all scopes so that parameters, let and block-local definitions shadow same-named outer variables), mixing global/if/for/try/mutex block scopes nested <= 3, let, named and anonymous functions, nested and returned closures, recursion with a decreasing counter, literal parameter defaults, calls with -1/0/+1 arguments, list and map literals with integer and dot-free string keys nested <= 3, reads and writes through dot and bracket paths (depth <= 3, read-back after write), len/add/del/concat, multi-assignment, object templates (single / chain / multiple / diamond inheritance) with properties, methods using this, init and super[i](...) calls; plus a directed enumeration of container write/read/len/del cases (key kind x present/absent x nesting prefix x access form). The reference model drops a program (never judges it) when it reads a missing key or an out-of-range index, touches a list or map after it was handed to add/del, uses the result of a function without return, binds a loop variable or function statement over a same-named outer variable, writes through a number key in the middle of a path, inherits two different definitions of one property from sibling templates, lets the right side of `let x` touch x, or when fresh and re-used block scopes would give different observations. Map keys are compared by their text (1 and \"1\" are not told apart; numeric-looking string keys are not generated). A case counts as non-trivial and distinct when its source text is new, its reference trace has >= 2 marker calls and the reference run exercised >= 2 kinds of scoping / closure / aliasing / container / object features (events feat.*)."
+
 // Run is the check.
 func Run(c *core.Ctx) {
+	c.Note("rule", ruleText)
+	// directed enumeration (exhaustive over its small universe, both tiers)
+	dir := directedPrograms()
+	for i, p := range dir {
+		if !c.Take("directed", i) {
+			continue
+		}
+		runCase(c, "directed", i, p)
+	}
+	n := c.Pick(20000, 400000)
+	for i := 0; i < n; i++ {
+		if !c.Take("gen", i) {
+			continue
+		}
+		p := generate(c.Rng("gen", i))
+		runCase(c, "gen", i, p)
+	}
+}
+
+func runCase(c *core.Ctx, stream string, idx int, p *Program) {
+	c.Begin(0, stream, idx, clip(Source(p.Body), 6000))
+	v := judge(p)
+	c.End(0)
+	if os.Getenv("VH_C05_DEBUG") != "" {
+		debugDump(p, v)
+	}
+	report(c, stream, idx, p, v)
+}
+
+func debugDump(p *Program, v verdict) {
+	w := os.Stderr
+	fmt.Fprintf(w, "---- source\n%s---- probes %v\n", Source(p.Body), probeSources(p))
+	fmt.Fprintf(w, "dropped=%q keys=%v\n", v.dropped, v.keys)
+	if v.d != nil {
+		fmt.Fprintf(w, "diff %s at %s\n  expected %s\n  observed %s\n", v.d.cat, v.d.where, v.d.expected, v.d.observed)
+	}
+	show := func(name string, o obs, unspec string) {
+		fmt.Fprintf(w, "== %s unspec=%q err=%q\n", name, unspec, o.Err)
+		for i, t := range o.Trace {
+			fmt.Fprintf(w, "  t%d %s\n", i, t)
+		}
+		for i, t := range o.Probes {
+			fmt.Fprintf(w, "  p%d %s\n", i, t)
+		}
+		for i, t := range o.Globals {
+			if t != "<undef>" {
+				fmt.Fprintf(w, "  g %s %s\n", p.Names[i], t)
+			}
+		}
+	}
+	fr := runRef(p, false, nil)
+	show("ref", fr.obs, fr.unspec)
+	if fr.unspec != "" {
+		return
+	}
+	all := map[string]bool{}
+	for _, s := range allDevs {
+		all[s] = true
+	}
+	dr := runRef(p, false, all)
+	show("ref+devs", dr.obs, dr.unspec)
+	real, _ := runReal(Source(p.Body), probeSources(p), p.Names, len(fr.obs.Trace)+20)
+	show("real", real, "")
 }
